@@ -34,6 +34,7 @@ import (
 
 	"github.com/oxia-db/oxia/common/compare"
 	"github.com/oxia-db/oxia/common/metric"
+	"github.com/oxia-db/oxia/common/vhook"
 )
 
 var (
@@ -355,6 +356,9 @@ func (p *Pebble) Close() error {
 	case <-p.ctx.Done():
 		return nil
 	default:
+		if vhook.Enabled {
+			vhook.At("pebble.close", p)
+		}
 		p.cancel()
 		for _, g := range p.gauges {
 			g.Unregister()
